@@ -30,8 +30,37 @@ NUMBER_ARITH_OK = {
 }
 
 
+def _number_truthiness(fi):
+    """(node, reason) for truthiness uses of a residue-number valued expression in fi."""
+    numberish = set()
+
+    def is_number(e: ast.AST) -> bool:
+        if isinstance(e, ast.Attribute) and e.attr == "number":
+            return True
+        if isinstance(e, ast.Call) and astq.callee_name(e) == "getattr" and len(e.args) >= 2 and isinstance(e.args[1], ast.Constant) and e.args[1].value == "number":
+            return True
+        if isinstance(e, ast.Name) and e.id in numberish:
+            return True
+        if isinstance(e, ast.IfExp):
+            return is_number(e.body) or is_number(e.orelse)
+        return False
+
+    for _ in range(3):
+        for s in ast.walk(fi.node):
+            if isinstance(s, ast.Assign) and len(s.targets) == 1 and isinstance(s.targets[0], ast.Name) and is_number(s.value):
+                numberish.add(s.targets[0].id)
+    out = []
+    for n in ast.walk(fi.node):
+        if isinstance(n, ast.BoolOp) and isinstance(n.op, ast.Or) and any(is_number(v) for v in n.values[:-1]):
+            out.append((n, "`or` falls through on the number 0"))
+        elif isinstance(n, (ast.If, ast.IfExp, ast.While)) and (is_number(n.test) or (isinstance(n.test, ast.UnaryOp) and isinstance(n.test.op, ast.Not) and is_number(n.test.operand))):
+            out.append((n.test, "truthiness test of a residue number"))
+    return out
+
+
 def run(chk) -> None:
     repo = chk.repo
+    chk.robust |= {"invariance-typing", "invariance-kinds", "positional-atom", "identity-arithmetic", "identity-order", "identity-truthiness", "memo-key", "same-residue-identity", "pdb-record-filter"}
     chk.explanation = (
         "Rigid-motion invariance type system (kinds Point, Vector, components, Invariant, Identity) applied to every expression of the functions on the annotation path, "
         "entered from find_pairs, find_stackings, is_connected, is_nucleotide and filter_clashing_atoms and followed into repo callees with the actual argument kinds: any comparison, "
@@ -145,6 +174,34 @@ def run(chk) -> None:
         fields = [x.attr for x in ast.walk(rets[0]) if isinstance(x, ast.Attribute)] if rets else []
         ok = len(rets) == 1 and isinstance(rets[0].value, ast.Compare) and set(fields) <= {"model", "chain", "number", "icode"} and {"chain", "number", "icode"} <= set(fields)
         chk.expect(ok, "identity-order", fi.where, f"{cls} order compares (chain, number, icode) (and model) lexicographically", f"{cls}.__lt__ does not compare exactly (model,) chain, number, icode", K(fi, "lt"), found=sorted(set(fields)))
+    # ---- residue number / insertion code are optional values whose 0 / "" are legitimate: presence is tested with `is None`
+    for m, cls in (("common", "Residue"), ("tertiary", "Residue3D"), ("common", "ResidueAuth"), ("common", "ResidueLabel")):
+        for q, fi in sorted(repo.modules[m].funcs.items()):
+            if fi.cls is None or fi.cls.name != cls:
+                continue
+            chk.note_function(fi)
+            for n, why in _number_truthiness(fi):
+                chk.violation("identity-truthiness", fi.site(n), f"`{norm(n)[:90]}`: {why}: a residue numbered 0 is treated as if it had no number and silently takes another identity", K(fi, f"truthy:{norm(n)[:50]}"))
+    chk.ok("identity-truthiness", "common.Residue / tertiary.Residue3D", "no truthiness test (`x or y`, `if x`) on a residue number: presence is tested with `is None`")
+    # ---- memoisation keyed by residue identity must not cache geometry ---------------------------------------
+    n_memo = 0
+    for m in ("tertiary", "annotator", "parser"):
+        for q, fi in sorted(repo.modules[m].funcs.items()):
+            decs = [d for d in fi.decorators if d.split("(")[0].split(".")[-1] in ("cache", "lru_cache")]
+            if not decs or fi.cls is None:
+                continue
+            n_memo += 1
+            try:
+                hfi = repo.func(m, f"{fi.cls.name}.__hash__")
+                hfields = {x.attr for x in ast.walk(hfi.node) if isinstance(x, ast.Attribute) and isinstance(x.value, ast.Name) and x.value.id == "self"}
+            except Exception:
+                hfields = None
+            geometric = any(isinstance(x, ast.Attribute) and x.attr in ("coordinates", "x", "y", "z", "atoms") for x in ast.walk(fi.node)) or any(isinstance(x, ast.Call) and astq.callee_name(x) == "find_atom" for x in ast.walk(fi.node))
+            if geometric and hfields is not None and not ({"atoms", "coordinates"} & hfields):
+                chk.violation("memo-key", fi.where, f"`@{decs[0]}` memoises {q} per hash/eq of self = {sorted(hfields)}, which ignores the atoms: another structure's residue with the same identity but other coordinates gets the cached geometry of the first", K(fi, "memo-key"))
+            elif geometric and hfields is None:
+                chk.error("memo-key", fi.where, f"`@{decs[0]}` on {q}: hash of {fi.cls.name} not found")
+    chk.ok("memo-key", "tertiary / annotator / parser", f"{n_memo} process-wide memoised methods; geometry is cached per instance only (cached_property)")
     # PDB vs mmCIF siblings: C15's reader agreement
     try:
         from checks import c15
